@@ -81,6 +81,19 @@ func VHarness_C07_Membership() {
 		vReach("accepted")
 		vAssert(post.ConfigChangeId == idx, "ccid-updated")
 		vAssert(!m.ordered || cc.Initialize || cc.ConfigChangeId == pre.ConfigChangeId, "ordered-ccid")
+		// an accepted change has exactly its effect
+		switch cc.Type {
+		case pb.RemoveNode:
+			// also for an id that was not a member: its (delayed) addition must never be admitted afterwards
+			vAssert(post.Removed[cc.ReplicaID], "accepted-removal-records-the-id-as-removed")
+			vAssert(kindOf(&post, cc.ReplicaID) == 4, "accepted-removal-leaves-no-membership")
+		case pb.AddNode:
+			vAssert(kindOf(&post, cc.ReplicaID) == 1, "accepted-add-node-makes-a-voter")
+		case pb.AddNonVoting:
+			vAssert(kindOf(&post, cc.ReplicaID) == 2, "accepted-add-nonvoting-makes-a-nonvoting-member")
+		case pb.AddWitness:
+			vAssert(kindOf(&post, cc.ReplicaID) == 3, "accepted-add-witness-makes-a-witness")
+		}
 	} else {
 		vReach("rejected")
 		vAssert(post.ConfigChangeId == pre.ConfigChangeId, "rejected-ccid-unchanged")
